@@ -152,6 +152,8 @@ struct RunCfg {
 
 struct Outcome {
     status: Option<i32>,
+    /// every thread asleep and not a single CPU tick consumed for 8 consecutive seconds (logical quiescence, not a deadline)
+    deadlocked: bool,
     timed_out: bool,
     stderr: String,
     output: Option<Vec<u8>>,
@@ -215,14 +217,38 @@ fn run_fst(bin: &Path, dir: &Path, inp: &Input, cfg: &RunCfg, extra_env: &[(Stri
     let start = Instant::now();
     let mut child = match cmd.spawn() {
         Ok(c) => c,
-        Err(e) => return Outcome { status: None, timed_out: true, stderr: format!("spawn failed: {}", e), output: None, trace: String::new() },
+        Err(e) => return Outcome { status: None, deadlocked: false, timed_out: true, stderr: format!("spawn failed: {}", e), output: None, trace: String::new() },
     };
     let limit = Duration::from_secs(if wrapper.is_empty() { 120 } else { 900 });
     let mut timed_out = false;
+    let mut deadlocked = false;
+    let mut last_probe = Instant::now();
+    let mut last_ticks: Option<u64> = None;
+    let mut quiet_samples = 0;
     let status = loop {
         match child.try_wait() {
             Ok(Some(st)) => break st.code(),
             Ok(None) => {
+                if wrapper.is_empty() && last_probe.elapsed() > Duration::from_secs(1) {
+                    last_probe = Instant::now();
+                    match proc_state(child.id()) {
+                        Some((ticks, all_asleep)) => {
+                            if all_asleep && last_ticks == Some(ticks) {
+                                quiet_samples += 1;
+                            } else {
+                                quiet_samples = 0;
+                            }
+                            last_ticks = Some(ticks);
+                        }
+                        None => quiet_samples = 0,
+                    }
+                    if quiet_samples >= 8 {
+                        let _ = child.kill();
+                        let _ = child.wait();
+                        deadlocked = true;
+                        break None;
+                    }
+                }
                 if start.elapsed() > limit {
                     let _ = child.kill();
                     let _ = child.wait();
@@ -239,7 +265,26 @@ fn run_fst(bin: &Path, dir: &Path, inp: &Input, cfg: &RunCfg, extra_env: &[(Stri
         use std::io::Read;
         let _ = e.read_to_string(&mut stderr);
     }
-    Outcome { status, timed_out, stderr, output: std::fs::read(&out).ok(), trace: std::fs::read_to_string(&trace).unwrap_or_default() }
+    Outcome { status, deadlocked, timed_out, stderr, output: std::fs::read(&out).ok(), trace: std::fs::read_to_string(&trace).unwrap_or_default() }
+}
+
+/// (CPU ticks consumed by the process so far, every thread is in state S) from /proc
+fn proc_state(pid: u32) -> Option<(u64, bool)> {
+    let stat = std::fs::read_to_string(format!("/proc/{}/stat", pid)).ok()?;
+    let after = &stat[stat.rfind(')')? + 2..];
+    let f: Vec<&str> = after.split_whitespace().collect();
+    let ticks = f.get(11)?.parse::<u64>().ok()? + f.get(12)?.parse::<u64>().ok()?;
+    let mut all_asleep = true;
+    for e in std::fs::read_dir(format!("/proc/{}/task", pid)).ok()?.filter_map(|e| e.ok()) {
+        if let Ok(s) = std::fs::read_to_string(e.path().join("stat")) {
+            if let Some(p) = s.rfind(')') {
+                if s[p + 2..].split_whitespace().next() != Some("S") {
+                    all_asleep = false;
+                }
+            }
+        }
+    }
+    Some((ticks, all_asleep))
 }
 
 /// Offline conservation checker over the H4 trace: the input rows are accounted for by the leaf batches, every
@@ -390,6 +435,12 @@ fn judge(inp: &Input, cfg: &RunCfg, o: &Outcome, ev: &mut Ev, trees: &mut HashSe
             ("destination_existed_and_was_longer", J::Bool(cfg.stale_output)),
         ])
     };
+    if o.deadlocked {
+        ev.eval(None);
+        ev.count("runs");
+        ev.violate("deadlock", format!("fst never finished: all of its threads were asleep and it consumed no CPU time for 8 consecutive seconds ({} trace lines so far)", o.trace.lines().count()), descr());
+        return;
+    }
     if o.timed_out {
         ev.count("runs:watchdog(inconclusive)");
         return;
@@ -633,7 +684,7 @@ pub fn run(ctx: &Ctx) -> i32 {
         Spec {
             level: "exploration",
             rule: "one evaluation = one run of the real `fst set|map` binary (unsorted mode) as a subprocess with seeded 0-2 ms delays injected at channel send/receive and around batch construction (hook H4): exit status 0, output opens and verify()s, keys == distinct input keys, every value == sum/max/min over ALL rows of its key, and for inputs without repeated keys the output bytes equal a sorted library build; the H4 batch trace is parsed into the merge tree (which leaf batches met in which union, per generation) and the worker assignment, and an offline conservation checker runs over it and records anomalies as evidence without judging them (the leaf batches together hold between #distinct keys and #rows rows, every intermediate file produced once and consumed by exactly one union, exactly one unconsumed result); inputs: 14 shapes (no repeats, repeats far apart, adjacent repeats incl. identical rows, three input files, five input files of which three are empty, one row, empty, five keys x 200 rows, all identical rows, sorted, reverse sorted, 3000 (thorough 10^5) rows with 30% repeats) x batch sizes {1,2,3,7,all} x fd-limit {2,3,15} x threads {1,2,5,16} x {set,sum,max,min}, a quarter of the runs overwriting an existing longer destination file (--force): a systematic core (every input x mode x batch size) plus random combinations; one fixed configuration is repeated under 24 (200) delay seeds to count how many distinct merge trees scheduling alone produces; thorough adds ThreadSanitizer-instrumented and valgrind-memcheck runs; non-trivial = every run; distinct_nontrivial counts runs (distinct parameter/seed combinations) plus distinct merge trees",
-            assumptions: vec!["keys are [a-z0-9]{1,12} (no CSV quoting, no empty lines), values < 2^32 so sums cannot overflow; fd-limit 1 is excluded as in the statement".into(), "interleavings are sampled, not enumerated: the evidence reports how many distinct groupings were actually observed".into(), "a subprocess hitting the 120 s watchdog is inconclusive, never a violation".into()],
+            assumptions: vec!["keys are [a-z0-9]{1,12} (no CSV quoting, no empty lines), values < 2^32 so sums cannot overflow; fd-limit 1 is excluded as in the statement".into(), "interleavings are sampled, not enumerated: the evidence reports how many distinct groupings were actually observed".into(), "a subprocess hitting the 120 s watchdog is inconclusive, never a violation; a deadlock is reported only on logical quiescence (every thread in state S and zero CPU ticks consumed over 8 consecutive one-second samples), not on elapsed time".into()],
             floors: vec![("runs", 200), ("runs:mode=Set", 20), ("runs:mode=Sum", 20), ("runs:mode=Max", 20), ("runs:mode=Min", 20), ("runs:no-repeat-inputs-compared-bytewise", 20), ("trace:union-batches", 100), ("max:union-generations", 2), ("distinct-merge-trees-observed", 20), ("trace:conservation-checked", 200), ("runs:overwriting-a-longer-existing-output", 20)],
             exhaustive: Some(false),
         },
